@@ -363,6 +363,8 @@ def compare(it, st, got, exp):
         raise Mismatch("the error value does not carry the original argument")
     if isinstance(exp, tuple) and exp and exp[0] == "any":
         return
+    if isinstance(exp, tuple) and exp and exp[0] == "custom":
+        return exp[1](it, st, got)
     if isinstance(exp, tuple) and exp and exp[0] == "signed":
         g = it.deref_all(st, got)
         if not (g[0] == "struct" and g[1] == "bigint::BigInt"):
@@ -742,6 +744,64 @@ def o_gcdlike(name):
     return f
 
 
+def o_extended_gcd_lcm(c):
+    """(ExtendedGcd { gcd, x, y }, lcm): a*x + b*y = gcd, gcd is the non-negative gcd handed out by extended_gcd on (+-a, +-b),
+    lcm * gcd = |a*b| (0 when a = b = 0) - checked modulo the Bezout relation and the exactness of divisions by the gcd"""
+    a, b = c.init_val(1), c.init_val(2)
+    sa, A = c.sm(1)
+    sb, B = c.sm(2)
+
+    def chk(it, st, got):
+        g = it.deref_all(st, got)
+        if g[0] != "tuple" or len(g[1]) != 2:
+            raise Mismatch("expected (ExtendedGcd, lcm)")
+        e = it.deref_all(st, g[1][0])
+        if e[0] != "struct" or not {"gcd", "x", "y"} <= set(e[2]):
+            raise Mismatch("first component is not an ExtendedGcd")
+        gg, xx, yy = (numeric(it, st, e[2][k]) for k in ("gcd", "x", "y"))
+        lcm = numeric(it, st, g[1][1])
+        rel = None
+        for (P, Q, gs, xs, ys) in st.egcds:
+            if (gg - gs.subst(st.subst)).is_zero() and ((P - a).is_zero() or (P + a).is_zero()) and ((Q - b).is_zero() or (Q + b).is_zero()):
+                rel = (P, Q, gs, xs, ys)
+        if rel is None:
+            raise Unsupported("the gcd component is not the gcd of an extended_gcd call on (+-a, +-b)")
+        P, Q, gs, xs, ys = rel
+        gsym = gs.single_symbol()
+        gcur = gs.subst(st.subst)
+        kzg = st.known_zero(gcur)
+        ka, kb = st.known_zero(A.subst(st.subst)), st.known_zero(B.subst(st.subst))
+        if ka is None:
+            raise NeedCase(A)
+        if kb is None:
+            raise NeedCase(B)
+        if kzg is None:
+            raise NeedCase(gcur)
+        if kzg != (ka and kb):
+            return  # infeasible: gcd = 0 exactly when a = b = 0
+        bez = (a * xx + b * yy - gg).subst({gsym: P * xs + Q * ys}) if not kzg else (a * xx + b * yy - gg)
+        if not bez.is_zero():
+            raise Mismatch("a*x + b*y - g = %r does not vanish under the Bezout relation of extended_gcd" % (bez,))
+        # lcm
+        if ka or kb:
+            if not lcm.is_zero():
+                raise Mismatch("lcm with a zero operand is %r, expected 0" % (lcm,))
+            return
+        d = lcm * gcur - A * B
+        if d.is_zero():
+            return
+        for (X, Y, q, r) in st.divs:
+            if not (Y - gcur).is_zero():
+                continue
+            relp = X - Poly.sym(q) * Y if isinstance(q, str) else X - q * Y
+            for k in (Poly.const(1), Poly.const(-1), A, B, Poly() - A, Poly() - B):
+                if (d - k * relp).is_zero():
+                    return
+        raise Mismatch("lcm * gcd - |a*b| = %r is not a consequence of the exact divisions by the gcd" % (d,))
+
+    return ("custom", chk)
+
+
 def o_is_multiple_of(c):
     sa, A = c.sm(1)
     sb, B = c.sm(2)
@@ -864,6 +924,7 @@ def helper_targets(facts):
     add(F(trait="num_integer::Integer", self_ty="bigint::BigInt", name="dec"), o_dec, "a - 1", "arg1")
     add(F(trait="num_integer::Integer", self_ty="bigint::BigInt", name="gcd"), o_gcdlike("gcd"), "gcd(|a|,|b|) >= 0")
     add(F(trait="num_integer::Integer", self_ty="bigint::BigInt", name="lcm"), o_gcdlike("lcm"), "lcm(|a|,|b|) >= 0")
+    add(F(trait="num_integer::Integer", self_ty="bigint::BigInt", name="extended_gcd_lcm"), o_extended_gcd_lcm, "a*x + b*y = g >= 0 (Bezout relation of extended_gcd), lcm * g = |a*b|")
     add(F(trait="num_integer::Integer", self_ty="bigint::BigInt", name="is_multiple_of"), o_is_multiple_of, "b == 0 ? a == 0 : b | a")
     add(F(trait="num_integer::Integer", self_ty="biguint::BigUint", name="is_multiple_of"), o_is_multiple_of, "b == 0 ? a == 0 : b | a")
     add(F(trait="num_integer::Integer", self_ty="bigint::BigInt", name="next_multiple_of"), o_next_multiple_of, "next multiple")
